@@ -61,7 +61,7 @@ func (t vuTag) node() module.Version {
 
 var vuDirPool = []string{"a", "b", "c", "d", "e", "f", "g", "h", "x/a", "y/a", "x/b", "y/lib"}
 var vuNamePool = []string{"", "", "", "", "", "lib", "lib", "a", "core", "x-1"}
-var vuPrePool = []string{"", "", "", "", "", "-rc.1", "-alpha", "-beta.2", "-rc.1.x"}
+var vuPrePool = []string{"", "", "", "", "", "", "-rc.1", "-alpha", "-beta.2", "-rc.1.x", "-rc.10", "-rc.2"}
 
 // vuGen builds one universe. shuffle != nil permutes the declaration order of every project's requirements
 // (same graph, different order); flags select optional input classes.
@@ -105,7 +105,15 @@ func vuGen(rng *rand.Rand, id int, malformedMajor bool) *vuUniverse {
 			}
 			budget -= n
 			for k := 0; k < n; k++ {
-				v := fmt.Sprintf("v%d.%d.%d%s", mj, rng.Intn(4), rng.Intn(3), vuPrePool[rng.Intn(len(vuPrePool))])
+				// small numbers mostly; now and then two-digit components (numeric, not lexicographic, order)
+				minor, patch := rng.Intn(4), rng.Intn(3)
+				if rng.Intn(8) == 0 {
+					minor = 9 + rng.Intn(4)
+				}
+				if rng.Intn(12) == 0 {
+					patch = 10 + rng.Intn(3)
+				}
+				v := fmt.Sprintf("v%d.%d.%d%s", mj, minor, patch, vuPrePool[rng.Intn(len(vuPrePool))])
 				if !seen[v] {
 					seen[v] = true
 					vers = append(vers, v)
